@@ -293,8 +293,9 @@ def decide(case, wctx):
         rest = [m for m in mism if owner.get(m["node"] if m["node"] != "<workflow output>" else m["of"], m["node"]) not in (tainted | dual)]
         if dual and not rest:
             r["mech"] = "split-source-also-plain-input"
-        elif (len(mism) == 1 and mism[0]["node"] == "<workflow output>" and mism[0]["got"] == [] and not case.get("wfsplit")
+        elif (len(clean) == 1 and clean[0]["node"] == "<workflow output>" and clean[0]["got"] == [] and not case.get("wfsplit")
               and no_job_output_node_with_inherited_axes(spec, case)):
+            # (mismatches explained by shared-origin-upstreams elsewhere in the same graph are set aside first)
             r["mech"] = "no-job-output-node-loses-inherited-axes"
     return r
 
